@@ -134,8 +134,8 @@ Proof.
       pose proof (sfx_len _ _ (sfx_type t _ _ (sfx_blank _ b _ (sfx_refl (n ++ X))))) as L1;
       assert (L2 : length k <= length X) by (apply sfx_len; repeat sfx_step) end.
     rewrite app_length in L1. assert (I : is_ident (fn_cname f) = true) by assumption.
-    destruct (fn_cname f); [discriminate|]. cbn [length] in L1. lia. }
-  destruct (fn_coneway f) as [b|]; [|exact L]. rewrite app_length. pose proof (len_blank b (fn_body f k)). lia.
+    destruct (fn_cname f); [discriminate|]. cbn [length] in L1. clear - L1 L2. lia. }
+  destruct (fn_coneway f) as [b|]; [|exact L]. rewrite app_length. pose proof (len_blank b (fn_body f k)) as L3. clear - L L3. lia.
 Qed.
 
 (* [fnfollow f k]: what the text after the function must not be mistaken for *)
